@@ -93,9 +93,13 @@ class ServeManifest(RequestHandlerBase):
         elif mft.segment_timeline or options.patch:
             options.update(segmentTimeline=True)
         options.remove_unused_parameters(mode)
-        dash = ManifestContext(
-            manifest=mft, options=options, stream=current_stream,
-            multi_period=None)
+        try:
+            dash = ManifestContext(
+                manifest=mft, options=options, stream=current_stream,
+                multi_period=None)
+        except ValueError as err:
+            logging.warning('Unable to create manifest: %s', err)
+            return flask.make_response(html.escape(f'{err}'), 404)
         context = cast(ManifestTemplateContext, self.create_context(
             title=current_stream.title, mpd=dash, options=options,
             mode=mode, stream=current_stream))
@@ -158,9 +162,13 @@ class ServeMultiPeriodManifest(RequestHandlerBase):
         except ValueError as e:
             logging.info('Invalid CGI parameters: %s', e)
             return flask.make_response('Invalid CGI parameters', 400)
-        dash = ManifestContext(
-            manifest=current_manifest, options=options, stream=None,
-            multi_period=current_mps)
+        try:
+            dash = ManifestContext(
+                manifest=current_manifest, options=options, stream=None,
+                multi_period=current_mps)
+        except ValueError as err:
+            logging.warning('Unable to create manifest: %s', err)
+            return flask.make_response(html.escape(f'{err}'), 404)
         context = cast(ManifestTemplateContext, self.create_context(
             title=current_mps.title, mpd=dash, options=options,
             mode=mode))
@@ -269,9 +277,13 @@ class ServePatch(RequestHandlerBase):
         options.remove_unused_parameters('live')
         original_publish_time = datetime.datetime.fromtimestamp(
             publish, tz=UTC())
-        dash = ManifestContext(
-            manifest=mft, options=options, stream=current_stream,
-            multi_period=None)
+        try:
+            dash = ManifestContext(
+                manifest=mft, options=options, stream=current_stream,
+                multi_period=None)
+        except ValueError as err:
+            logging.warning('Unable to create manifest patch: %s', err)
+            return flask.make_response(html.escape(f'{err}'), 404)
         context = cast(PatchTemplateContext, self.create_context(
             title=current_stream.title, mpd=dash, options=options,
             stream=current_stream,
